@@ -42,6 +42,7 @@ THEOREMS = [
     "Nix.C12.write_data_accepted",
     "Nix.C12.vector_setters_refused_unchanged",
     "Nix.C12.property_values_refused_unchanged",
+    "Nix.C12.ticks_refused_unchanged",
     "Nix.C12.write_order_matters",
     "Nix.C12.mutators_validate_first",
     "Nix.C12.mutator_paths_refused_unchanged",
@@ -85,11 +86,12 @@ MANIFEST = {
                   "graph reached by a refused call is observationally the graph before it (all attributes and ordered links "
                   "of every node kept; only links to new empty container groups may appear; rolled-back nodes are unlinked). "
                   "(2) the vector-valued attributes (Pure/VecWrite.lean): H5Group.write_data and the Tag.position / "
-                  "Tag.extent / DataArray.polynom_coefficients / Property.values setters are *step lists rendered from the "
+                  "Tag.extent / DataArray.polynom_coefficients / Property.values / RangeDimension.ticks setters are *step lists rendered from the "
                   "source statement by statement* (Generated/WriteOrder.lean: condition of the NumPy conversion, order of "
                   "conversion / resize-or-create / write / time stamp); for every spelling of the value (None, number, "
                   "list, tuple, ndarray of any element type, 0-d, n-d), every stored vector or none, a refused assignment "
-                  "leaves dataset and updated_at unchanged, an accepted one stores the converted values; moving the resize "
+                  "leaves dataset and updated_at (ticks: dataset and the dimension's link) unchanged, an accepted one stores "
+                  "the converted values; moving the resize "
                   "before the conversion or narrowing the conversion's condition in the source breaks lake build on named "
                   "theorems (write_order_matters proves both variants wrong on the model). "
                   "(3) Generated/MutatorOrder.lean lists, for each of the ~115 public mutators of the anchored modules, the "
@@ -108,12 +110,12 @@ MANIFEST = {
                   "verified; the event classification of mutorder.py is by method name and the 15 mutators listed in "
                   "Props/C12.lean `writesFirst` are exempt from the order theorem (covered by the writer model or the oracle "
                   "only). Partial: array data and frame contents are leaf nodes - refusals of DataSet.append, "
-                  "write_direct, __setitem__, data_extent, DataFrame writes, dimension setters (ticks, labels, unit, label, "
+                  "write_direct, __setitem__, data_extent, DataFrame writes, dimension setters (labels, unit, label, "
                   "offset, interval), dimension links, Property attribute setters, Section item assignment, copy_from "
                   "creation and File-level deletes have no theorem: they are checked by the oracle (catalogue + spelling "
-                  "sweep) on the implementation only. Tag.units / MultiTag.units (string vectors), RangeDimension.ticks and "
+                  "sweep) on the implementation only. Tag.units / MultiTag.units (string vectors) and "
                   "SetDimension.labels go through write_data with a non-float dtype and are outside write_data_refused_unchanged "
-                  "(stated for the float dtype). create_multi_tag with positions/extents given as data has its own full theorem "
+                  "(stated for the float dtype); ticks_refused_unchanged assumes that a linked dimension holds no ticks dataset. create_multi_tag with positions/extents given as data has its own full theorem "
                   "(multi_tag_refused_unchanged, under C03's invariant WF and the assumption that '<name>-positions' / "
                   "'<name>-extents' are not ids of the supply). name_still_available is proved for "
                   "create_group/source/data_array/tag (not for multi tags).",
@@ -733,8 +735,8 @@ def correspondence(ctx):
         scene.close()
     total += n_vec
     return {"evaluations": total, "distinct_nontrivial": len(seen),
-            "rule": "(1) vector setters: Tag.position / Tag.extent / DataArray.polynom_coefficients / Property.values "
-                    "with a random stored vector (or none) and a value spelled as None / number / object / list / tuple / "
+            "rule": "(1) vector setters: Tag.position / Tag.extent / DataArray.polynom_coefficients / Property.values / "
+                    "RangeDimension.ticks (plain or linked dimension) with a random stored vector (or none) and a value spelled as None / number / object / list / tuple / "
                     "ndarray (float64, int64, str, object) / 0-d array / nested list / 2-D array / empty, elements numbers, "
                     "text, objects, integers outside int64: refused or accepted, the dataset read back with h5py, whether "
                     "updated_at moved - against Pure/VecWrite.lean run on the step lists of Generated/WriteOrder.lean. "
